@@ -743,5 +743,6 @@ func TestC23LevelDB(t *testing.T) { rapid.Check(t, prop(bkLevelDB, stLdb)) }
 func TestC23Pebble(t *testing.T)  { rapid.Check(t, prop(bkPebble, stPbl)) }
 
 func FuzzC23(f *testing.F) {
+	kvmodel.SeedCorpus(f)
 	f.Fuzz(rapid.MakeFuzz(prop("", stFuz)))
 }
